@@ -50,7 +50,7 @@ m = {
          "kind_free_text": "cddl.pest -> SAT (pegdump + Python/z3) versus RFC ABNF span derivability"},
     ],
     "checks": checks,
-    "notes": "Technique family: solver-based checking of the real code: E1 Kani/CBMC harnesses over leaf kernels and single visitor callbacks, E2 cddl.pest as a SAT problem against the RFC ABNF, E3 a MIR slice of unescape_text in z3. Exit 2 of a check means inconclusive (timeout / out of memory / non-reproducing counterexample / machinery fault) and is never a pass. Known findings and fixed: entries: /verif/known_findings.json. Seeded changes and what catches them: /verif/seeded, DESIGN.md section 8. Last `vp check` of the committed state: nothing needed attention (all twelve quick checks, 54 min).",
+    "notes": "Technique family: solver-based checking of the real code: E1 Kani/CBMC harnesses over leaf kernels and single visitor callbacks, E2 cddl.pest as a SAT problem against the RFC ABNF, E3 a MIR slice of unescape_text in z3. Exit 2 of a check means inconclusive (timeout / out of memory / non-reproducing counterexample / machinery fault) and is never a pass. Known findings and fixed: entries: /verif/known_findings.json. Seeded changes and what catches them: /verif/seeded, DESIGN.md section 8. Last `vp check` (request 4, taken at /verif d0326ec = the harness sources and harness table of the final state, /repo 4a6d872): nothing needed attention (all twelve quick checks, 59 min); later commits change documentation, seeded-change records, the C05 scope sentence and re-generated evidence only.",
     "not_applicable": [{"property_id": p, "reason": r} for p, r in sorted(props.NOT_APPLICABLE.items())],
 }
 with open(os.path.join(os.path.dirname(__file__), "..", "MANIFEST.json"), "w") as f:
